@@ -126,6 +126,12 @@ func (g *Gen) execSpec() *execSpec {
 	if g.R.P(25) {
 		e.opts = append(e.opts, z.WithCtxValue("k2", g.R.Intn(100)))
 	}
+	if g.R.P(15) {
+		// many context values in one call (stores with an inline part and a spill-over part)
+		for _, k := range ctxProbe[2 : 2+g.R.Intn(7)] {
+			e.opts = append(e.opts, z.WithCtxValue(k, g.R.Intn(100)))
+		}
+	}
 	if g.R.P(20) {
 		tag := fmt.Sprintf("F%d:", g.R.Intn(100))
 		e.opts = append(e.opts, z.WithIssueFormatter(func(i *z.ZogIssue, c z.Ctx) { i.SetMessage(tag + i.Code) }))
